@@ -5878,6 +5878,19 @@ int32_t matrixSslEncodeClientHello(ssl_t *ssl, sslBuf_t *out,
 #   endif
             }
         }
+        else if (ssl->sid &&
+            ssl->sid->sessionTicketState != SESS_TICKET_STATE_USING_TICKET &&
+#   ifdef USE_EAP_FAST
+            ssl->sid->sessionTicketState != SESS_TICKET_STATE_EAP_FAST &&
+#   endif
+            ssl->sid->sessionTicketState != SESS_TICKET_STATE_INIT)
+        {
+            /* This hello does not ask for a ticket. A negotiation state left
+               in the session id object by an earlier connection (a server
+               that acknowledged the extension and never sent a ticket) must
+               not admit a NewSessionTicket in this one. */
+            ssl->sid->sessionTicketState = SESS_TICKET_STATE_INIT;
+        }
 #  endif /* USE_STATELESS_SESSION_TICKETS       */
 
 #  ifdef USE_OCSP_RESPONSE
